@@ -211,7 +211,7 @@ func pathSpaces(g *vlib.G) []graphSpace {
 		{n: 4, directed: true, large: true},
 		{n: 5, large: true},
 		{n: 5, weighted: true, rotate: true, large: true},
-		{n: 4, directed: true, weighted: true, stride: vlib.Pick(g, 4, 1), offset: vlib.Pick(g, 1, 0), rotate: true, large: true},
+		{n: 4, directed: true, weighted: true, stride: vlib.Pick(g, 5, 1), offset: vlib.Pick(g, 1, 0), rotate: true, large: true},
 		{n: 4, weighted: true, alpha: alpha012, stride: vlib.Pick(g, 3, 1), rotate: true, large: true},
 		{n: 5, weighted: true, zeroOut: true, stride: vlib.Pick(g, 7, 1), offset: 3, rotate: true, large: true},
 		{n: 5, weighted: true, alpha: alpha01, stride: vlib.Pick(g, 7, 1), offset: 2, rotate: true, large: true},
